@@ -1,7 +1,7 @@
 From Coq Require Import List NArith Bool Arith Permutation Lia.
 Import ListNotations.
 Require Import MV.Common.Interleave MV.C05.Model MV.C05.Spec MV.C05.Exec.
-Require Import MV.C05.ProofsSeq MV.C05.ProofsInv MV.C05.ProofsCor MV.C05.ProofsUniq MV.C05.ProofsCons MV.C05.ProofsProg MV.C05.ProofsSnap MV.C05.ProofsEmpty MV.C05.ProofsOrder MV.C05.ProofsSpec MV.C05.ProofsTrace1 MV.C05.ProofsTrace2 MV.C05.ProofsTrace3 MV.C05.ProofsTrace4 MV.C05.ProofsTrace5 MV.C05.ProofsTrace6 MV.C05.ProofsTrace7 MV.C05.ProofsTrace8 MV.C05.ProofsTrace9 MV.C05.ProofsTrace10 MV.C05.ProofsTrace11 MV.C05.ProofsTrace12.
+Require Import MV.C05.ProofsSeq MV.C05.ProofsInv MV.C05.ProofsCor MV.C05.ProofsUniq MV.C05.ProofsCons MV.C05.ProofsProg MV.C05.ProofsSnap MV.C05.ProofsEmpty MV.C05.ProofsOrder MV.C05.ProofsSpec MV.C05.ProofsTrace1 MV.C05.ProofsTrace2 MV.C05.ProofsTrace3 MV.C05.ProofsTrace4 MV.C05.ProofsTrace5 MV.C05.ProofsTrace6 MV.C05.ProofsTrace7 MV.C05.ProofsTrace8 MV.C05.ProofsTrace9 MV.C05.ProofsTrace10 MV.C05.ProofsTrace11 MV.C05.ProofsTrace12 MV.C05.ProofsTrace13 MV.C05.ProofsTrace14 MV.C05.ProofsTrace15.
 Local Open Scope nat_scope.
 Require Import MV.C05.Properties.
 
@@ -173,15 +173,6 @@ Check (C05_spec_reads_no_dup_on_model : forall c : case,
   let '(tr, rss, _, _, _) := run_case c in
   forallb (fun rc => nodupb (handed rc)) (rcalls tr 0 rss) = true).
 Print Assumptions C05_spec_reads_no_dup_on_model.
-Check (C05_spec_ok_on_model_partial : forall c : case,
-  let '(tr, rss, done, final, anom) := run_case c in
-  anom = 0%N /\ all2 follows (progs_of c) rss = true /\
-  nodupb (flat_map handed (filter is_clear (rcalls tr 0 rss))) = true /\
-  forallb (fun rc => nodupb (handed rc)) (rcalls tr 0 rss) = true /\
-  forallb (fun rc => forallb (fun qs => slice_genuine (pinfos tr 0 (progs_of c)) (fst qs) (snd qs) &&
-                                         match fst qs with Some _ => true | None => false end) (rsl rc))
-          (rcalls tr 0 rss) = true).
-Print Assumptions C05_spec_ok_on_model_partial.
 Check (C05_oversized_final_read_regression : known_class oversized_case = None /\
   (let '(_, rss, done, final, _) := run_case oversized_case in
    done = true /\ length final = N.to_nat 136 /\
@@ -196,7 +187,7 @@ Check (C05_spec_claim_order_on_model : forall c : case,
   forallb (fun rc => forallb (fun qs => slice_ordered (pinfos tr 0 (progs_of c)) (snd qs)) (rsl rc)) (rcalls tr 0 rss) = true /\
   forallb (slice_ordered (pinfos tr 0 (progs_of c))) final = true).
 Print Assumptions C05_spec_claim_order_on_model.
-Check (C05_spec_ok_on_model_partial2 : forall c : case,
+Check (C05_spec_clauses_on_model_every_case : forall c : case,
   let '(tr, rss, done, final, anom) := run_case c in
   let tbl := pinfos tr 0 (progs_of c) in
   let rc := rcalls tr 0 rss in
@@ -207,7 +198,7 @@ Check (C05_spec_ok_on_model_partial2 : forall c : case,
   && forallb (slice_genuine tbl None) final
   && forallb (fun c0 => forallb (fun qs => slice_ordered tbl (snd qs)) (rsl c0)) rc
   && forallb (slice_ordered tbl) final = true).
-Print Assumptions C05_spec_ok_on_model_partial2.
+Print Assumptions C05_spec_clauses_on_model_every_case.
 Check (C05_final_read_finishes : forall B fxc s ls, 1 <= B -> All B (s, ls) ->
   (forall u l, nth_error ls u = Some l -> pcl l = Done) ->
   let f := final_data B true fxc s in
@@ -273,6 +264,16 @@ Check (C05_spec_ok_on_model_no_clear : forall c : case,
   (forall p, In p (progs_of c) -> ~ In CClear p) ->
   spec_ok c (run_case c) = true).
 Print Assumptions C05_spec_ok_on_model_no_clear.
+Check (C05_spec_completeness_on_model : forall c : case, known_class c = None ->
+  let '(tr, rss, done, _, _) := run_case c in
+  done = true ->
+  let tbl := pinfos tr 0 (progs_of c) in
+  let rc := rcalls tr 0 rss in
+  forallb (fun r => if ((rkind r =? 0) || (rkind r =? 2))%N then accounts tbl (filter is_clear rc) (rstart r) (handed r)
+                    else if (rkind r =? 3)%N then existsb (fun i => olt (ppub i) (rend r)) tbl else true) rc = true).
+Print Assumptions C05_spec_completeness_on_model.
+Check (C05_spec_ok_on_model : forall c : case, known_class c = None -> spec_ok c (run_case c) = true).
+Print Assumptions C05_spec_ok_on_model.
 Check (C05_popcount_len_refuted : let cf := fst (exec (step BS true true) site (init_config [[CPush 1%N]; [CPush 2%N]; [CData]]) popcount_sched) in
   let k := getb (heap (fst cf)) 0 in
   option_map pcl (nth_error (snd cf) 2) = Some (WD false 0 []) /\
